@@ -1,28 +1,23 @@
-(* C04, canonicity, the step of Darwiche's theorem that is proved here: two compressed partitions
-   of the same function at one vtree node have the same elements, GIVEN that semantic equality
-   implies pointer equality for the primes (below the left child) and for the subs (below the
-   right child). *)
+(* C04, canonicity.  Part 1 (this file): at one vtree node (VNode l r), GIVEN canonicity below l
+   and below r: uniqueness of compressed partitions, and the four ways two well-formed pointers
+   below the node can be related (same node; node vs. left; node vs. right; left vs. right). *)
 From Coq Require Import Bool NArith List Lia Arith Permutation.
 Import ListNotations.
-From RsddV Require Import Base.Bdd Base.Util Model.SddVtree Model.SddOps Proofs.SddBase.
-From RsddV Require Import Proofs.SddVtree Proofs.SddInv Proofs.SddLoops Proofs.SddNode Proofs.SddWf.
+From RsddV Require Import Base.Bdd Base.Util Model.SddVtree Model.SddOps Proofs.SddBase Proofs.SddCmp.
+From RsddV Require Import Proofs.SddVtree Proofs.SddInv Proofs.SddLoops Proofs.SddNode Proofs.SddWf Proofs.SddWfOps.
 
-Section Canon.
-Variable t : vtree.
-Hypothesis ND : NoDup (vleaves t).
-Variables l r : vtree.
-Variable off : nat.
-Hypothesis Ho : occurs t 0 (VNode l r) off.
-Notation m := (off + vsize l).
-Notation okl := (okl (under l off) (under r (S m))).
+(* semantic equality implies pointer equality, for well-formed pointers below u *)
+Definition canon_at (u : vtree) (off : nat) : Prop :=
+  forall p q, under u off p -> under u off q -> nf p -> nf q -> (forall a, sden p a = sden q a) -> p = q.
 
-(* canonicity of the children, as hypotheses *)
-Hypothesis CanP : forall p q, under l off p -> under l off q -> (forall a, sden p a = sden q a) -> p = q.
-Hypothesis CanS : forall p q, under r (S m) p -> under r (S m) q -> (forall a, sden p a = sden q a) -> p = q.
+Lemma adj_invol c s : adj c (adj c s) = s.
+Proof. destruct c; simpl; auto using sneg_invol. Qed.
+Lemma adj_xorb c d s : adj c (adj d s) = adj (xorb c d) s.
+Proof. destruct c, d; simpl; auto using sneg_invol. Qed.
 
 Lemma cnt_pos_in els a : 1 <= cnt els a -> exists p s, In (p, s) els /\ sden p a = true.
 Proof.
-  induction els as [|[p s] rest IH]; [simpl; unfold cnt; simpl; lia|].
+  induction els as [|[p s] rest IH]; [unfold cnt; simpl; lia|].
   rewrite cnt_cons. destruct (sden p a) eqn:E.
   - intros _. exists p, s. split; [left; reflexivity | exact E].
   - intros H. destruct IH as (p' & s' & Hin & Hp); [simpl in H; lia|]. exists p', s'. split; [right; exact Hin | exact Hp].
@@ -39,24 +34,68 @@ Proof.
   - auto.
 Qed.
 
+(* exclusive satisfiable primes are pairwise distinct pointers *)
+Lemma excl_sat_nodup_primes (els : list elem) : excl els -> satl els -> NoDup (map fst els).
+Proof.
+  induction els as [|[p s] rest IH]; intros Hex Hs; simpl; [constructor|].
+  inversion Hs as [|? ? [a Ha] Hs']; subst. simpl in Ha.
+  assert (Hex' : excl rest) by (intros b; specialize (Hex b); rewrite cnt_cons in Hex; lia).
+  constructor; auto. intros Hin. apply in_map_iff in Hin. destruct Hin as ([p' s'] & Ep & Hin). simpl in Ep. subst p'.
+  specialize (Hex a). rewrite cnt_cons, Ha in Hex.
+  assert (1 <= cnt rest a); [|lia].
+  clear -Hin Ha. induction rest as [|[q u] r IH]; [destruct Hin|]. rewrite cnt_cons.
+  destruct Hin as [[= -> ->]|Hin]; [rewrite Ha; lia | specialize (IH Hin); lia].
+Qed.
+
+Section Canon.
+Variable t : vtree.
+Hypothesis ND : NoDup (vleaves t).
+
+(* a well-formed pointer that denotes a constant is the constant pointer *)
+Lemma sem_const u off p : occurs t 0 u off -> under u off p -> nf p ->
+  (forall a a', sden p a = sden p a') -> s_is_const p = true.
+Proof.
+  intros Ho Hu Hn Hc. destruct (nf_sat t ND p u off Ho Hu Hn) as [S F].
+  destruct p; try reflexivity; exfalso.
+  all: destruct S as [a1 E1]; [discriminate|]; destruct F as [a2 E2]; [discriminate|]; rewrite (Hc a1 a2) in E1; congruence.
+Qed.
+
+Section Node.
+Variables l r : vtree.
+Variable off : nat.
+Hypothesis Ho : occurs t 0 (VNode l r) off.
+Notation m := (off + vsize l).
+Notation okl := (okl (under l off) (under r (S m))).
+Hypothesis CanP : canon_at l off.
+Hypothesis CanS : canon_at r (S m).
+
+Lemma Hdis : forall v, In v (vleaves l) -> In v (vleaves r) -> False.
+Proof. eapply leaves_disjoint; eauto. Qed.
+
+(* ---- uniqueness of compressed partitions ---- *)
 Section OneWay.
 Variables X Y : list elem.
 Hypothesis HX : okl X.
 Hypothesis HY : okl Y.
+Hypothesis NX : nfl X.
+Hypothesis NY : nfl Y.
 Hypothesis PX : part X.
 Hypothesis PY : part Y.
 Hypothesis DY : NoDup (map snd Y).
 Hypothesis DX : NoDup (map snd X).
 Hypothesis Heq : forall a, den_els X a = den_els Y a.
 
-(* elements whose primes overlap have the same sub *)
+Lemma nfl_in (Z : list elem) p s : nfl Z -> In (p, s) Z -> nf p /\ nf s.
+Proof. unfold nfl. rewrite Forall_forall. intros H Hin. apply (H (p, s) Hin). Qed.
+
 Lemma overlap_same_sub p s q u a0 : In (p, s) X -> In (q, u) Y -> sden p a0 = true -> sden q a0 = true -> s = u.
 Proof.
   intros Hx Hy Ep Eq.
   destruct (okl_in _ _ X p s HX Hx) as [Up Us]. destruct (okl_in _ _ Y q u HY Hy) as [Uq Uu].
+  destruct (nfl_in X p s NX Hx) as [_ Ns]. destruct (nfl_in Y q u NY Hy) as [_ Nu].
   apply CanS; auto. intros a.
   set (g := glue (vleaves l) a0 a).
-  assert (Ag : agree (vleaves r) g a) by (apply glue_r; eapply leaves_disjoint; eauto).
+  assert (Ag : agree (vleaves r) g a) by (apply glue_r; exact Hdis).
   assert (Al : agree (vleaves l) g a0) by apply glue_l.
   assert (E1 : sden p g = true) by (rewrite (under_agree p l off g a0 Up Al); exact Ep).
   assert (E2 : sden q g = true) by (rewrite (under_agree q l off g a0 Uq Al); exact Eq).
@@ -71,10 +110,10 @@ Proof.
   destruct (cnt_pos_in Y a0 ltac:(rewrite PY; lia)) as (q & u & Hy & Eq).
   assert (Esu : s = u) by (apply (overlap_same_sub p s q u a0 Hx Hy E0 Eq)). subst u.
   destruct (okl_in _ _ X p s HX Hx) as [Up Us]. destruct (okl_in _ _ Y q s HY Hy) as [Uq _].
+  destruct (nfl_in X p s NX Hx) as [Np _]. destruct (nfl_in Y q s NY Hy) as [Nq _].
   assert (Epq : p = q).
   { apply CanP; auto. intros a. destruct (sden p a) eqn:Ea; destruct (sden q a) eqn:Eb; auto.
-    - (* p holds, q does not: the element of Y that holds has the same sub, hence is (q, s) *)
-      destruct (cnt_pos_in Y a ltac:(rewrite PY; lia)) as (q' & u' & Hy' & Eq').
+    - destruct (cnt_pos_in Y a ltac:(rewrite PY; lia)) as (q' & u' & Hy' & Eq').
       assert (s = u') by (apply (overlap_same_sub p s q' u' a Hx Hy' Ea Eq')). subst u'.
       assert (q' = q) by (apply (nodup_snd_inj Y q' q s DY Hy' Hy)). subst q'. congruence.
     - destruct (cnt_pos_in X a ltac:(rewrite PX; lia)) as (p' & s' & Hx' & Ep').
@@ -84,15 +123,134 @@ Proof.
 Qed.
 End OneWay.
 
-(* uniqueness of compressed partitions, given canonical children *)
-Theorem partition_unique X Y : okl X -> okl Y -> part X -> part Y ->
+Theorem partition_unique X Y : okl X -> okl Y -> nfl X -> nfl Y -> part X -> part Y ->
   NoDup (map snd X) -> NoDup (map snd Y) -> satl X -> satl Y ->
   (forall a, den_els X a = den_els Y a) ->
   forall e, In e X <-> In e Y.
 Proof.
-  intros HX HY PX PY DX DY SX SY Heq [p s]. unfold satl in *. rewrite Forall_forall in SX, SY. split; intros H.
-  - apply (element_transfer X Y HX HY PX PY DY DX Heq p s H). apply (SX _ H).
-  - apply (element_transfer Y X HY HX PY PX DX DY (fun a => eq_sym (Heq a)) p s H). apply (SY _ H).
+  intros HX HY NX NY PX PY DX DY SX SY Heq [p s]. unfold satl in *. rewrite Forall_forall in SX, SY. split; intros H.
+  - apply (element_transfer X Y HX HY NX NY PX PY DY DX Heq p s H). apply (SX _ H).
+  - apply (element_transfer Y X HY HX NY NX PY PX DX DY (fun a => eq_sym (Heq a)) p s H). apply (SY _ H).
 Qed.
 
+(* ---- the element view of a well-formed node, with everything canonicity needs ---- *)
+Definition not_tf (E : list elem) : Prop := ~ (length E = 2 /\ In ST (map snd E) /\ In SF (map snd E)).
+
+Lemma view_full p : at_node l r off p -> nf p ->
+  exists E, adj_elems p = Some E /\ okl E /\ nfl E /\ part E /\ satl E /\ NoDup (map snd E) /\
+            2 <= length E /\ not_tf E /\ forall a, sden p a = den_els E a.
+Proof.
+  intros Ha Hn. destruct (at_node_view l r off p Ha) as (E & EE & Hok & Hp & Hd).
+  exists E. split; [exact EE|]. split; [exact Hok|].
+  destruct Ha as [(c & lbl & lo & hi & -> & H1 & H2 & H3)|(c & els & -> & H1 & H2 & H3)].
+  - destruct Hn as (Nlo & Nhi & Hne & Hnorm & Hlit).
+    assert (EE' : E = [(SVar lbl true, adj c hi); (SVar lbl false, adj c lo)]).
+    { destruct c; simpl in EE; injection EE as <-; reflexivity. }
+    subst E. repeat split; auto.
+    + repeat constructor; simpl; auto using nf_adj.
+    + repeat constructor; simpl.
+      * exists (upd asg0 lbl true). unfold upd. rewrite N.eqb_refl. reflexivity.
+      * exists asg0. reflexivity.
+    + simpl. constructor; [|constructor; [intros []|constructor]]. intros [H|[]].
+      apply Hne. destruct c; simpl in H; [apply sneg_inj|]; congruence.
+    + intros (_ & A & B). simpl in A, B.
+      destruct A as [A|[A|[]]]; destruct B as [B|[B|[]]]; destruct c; simpl in A, B;
+        try (rewrite A in B; discriminate).
+      all: destruct hi; try discriminate; destruct lo; try discriminate; try (apply Hlit; split; reflexivity); try (simpl in Hnorm; discriminate).
+  - apply nf_or in Hn. destruct Hn as (Nl & Hlen & Hnd & HnF & Htf & _).
+    assert (EE' : E = adjsubs c els) by (destruct c; simpl in EE; injection EE as <-; reflexivity).
+    subst E. repeat split; auto.
+    + unfold nfl, adjsubs. rewrite Forall_map. eapply Forall_impl; [|exact Nl]. intros [p s] [A B]. simpl. auto using nf_adj.
+    + apply (okn_nonF_satl t ND l r off Ho).
+      * apply okn_split. split; [exact Hok|].
+        unfold nfl, adjsubs. rewrite Forall_map. eapply Forall_impl; [|exact Nl]. intros [p s] [A B]. simpl. auto using nf_adj.
+      * unfold nonF, adjsubs. rewrite Forall_map. exact HnF.
+    + unfold adjsubs. rewrite map_map. simpl. destruct c.
+      * change (map (fun x : sdd * sdd => adj true (snd x)) els) with (map (fun x : sdd * sdd => sneg (snd x)) els).
+        rewrite <- (map_map snd sneg). apply NoDup_map_sneg. exact Hnd.
+      * unfold adj. exact Hnd.
+    + unfold adjsubs. rewrite map_length. exact Hlen.
+    + unfold not_tf, adjsubs. rewrite map_length, map_map. simpl. intros (L & A & B). apply Htf. split; auto.
+      apply in_map_iff in A. destruct A as (e1 & A1 & A2). apply in_map_iff in B. destruct B as (e2 & B1 & B2).
+      destruct c; simpl in A1, B1.
+      * split; apply in_map_iff; [exists e2 | exists e1]; split; auto;
+          [destruct (snd e2) | destruct (snd e1)]; try discriminate; reflexivity.
+      * split; apply in_map_iff; [exists e1 | exists e2]; auto.
+Qed.
+
+(* all subs constant pointers: impossible for a trimmed compressed node *)
+Lemma subs_not_all_const E : NoDup (map snd E) -> 2 <= length E -> not_tf E ->
+  Forall (fun e => s_is_const (snd e) = true) E -> False.
+Proof.
+  intros Hnd Hlen Htf Hc. destruct E as [|[p0 s0] [|[p1 s1] rest]]; simpl in Hlen; try lia.
+  inversion Hc as [|? ? C0 Hc']; subst. inversion Hc' as [|? ? C1 Hc'']; subst. simpl in C0, C1.
+  simpl in Hnd. apply NoDup_cons_iff in Hnd. destruct Hnd as [N0 Hnd]. apply NoDup_cons_iff in Hnd. destruct Hnd as [N1 _].
+  destruct rest as [|[p2 s2] rest'].
+  - apply Htf. simpl. split; auto. simpl in N0.
+    destruct s0, s1; try discriminate; simpl; auto; exfalso; apply N0; auto.
+  - inversion Hc'' as [|? ? C2 _]; subst. simpl in C2, N0, N1.
+    destruct s0, s1, s2; try discriminate; simpl in *; intuition.
+Qed.
+
+(* ---- a node against something below its left child ---- *)
+Lemma node_vs_left X Y : at_node l r off X -> nf X -> under l off Y ->
+  (forall a, sden X a = sden Y a) -> False.
+Proof.
+  intros Ha Hn Uy Heq. destruct (view_full X Ha Hn) as (E & _ & Hok & Nl & Hp & Hs & Hnd & Hlen & Htf & Hd).
+  apply (subs_not_all_const E Hnd Hlen Htf).
+  apply Forall_forall. intros [p s] Hin. simpl.
+  destruct (okl_in _ _ E p s Hok Hin) as [Up Us]. destruct (nfl_in E p s Nl Hin) as [_ Ns].
+  unfold satl in Hs. rewrite Forall_forall in Hs. destruct (Hs _ Hin) as [al Eal]. simpl in Eal.
+  apply (sem_const r (S m) s (occurs_right _ _ _ _ _ Ho) Us Ns).
+  assert (K : forall a, sden s a = sden Y al).
+  { intros a. set (g := glue (vleaves l) al a).
+    assert (Ag : agree (vleaves r) g a) by (apply glue_r; exact Hdis).
+    assert (Al : agree (vleaves l) g al) by apply glue_l.
+    assert (E1 : sden p g = true) by (rewrite (under_agree p l off g al Up Al); exact Eal).
+    rewrite <- (under_agree s r _ g a Us Ag).
+    rewrite <- (excl_den E p s g ltac:(rewrite Hp; lia) Hin E1), <- Hd, Heq.
+    apply (under_agree Y l off g al Uy Al). }
+  intros a a'. rewrite !K. reflexivity.
+Qed.
+
+(* ---- a node against something below its right child ---- *)
+Lemma node_vs_right X Y : at_node l r off X -> nf X -> under r (S m) Y ->
+  (forall a, sden X a = sden Y a) -> False.
+Proof.
+  intros Ha Hn Uy Heq. destruct (view_full X Ha Hn) as (E & _ & Hok & Nl & Hp & Hs & Hnd & Hlen & Htf & Hd).
+  assert (K : forall p s, In (p, s) E -> forall a, sden s a = sden Y a).
+  { intros p s Hin a.
+    destruct (okl_in _ _ E p s Hok Hin) as [Up Us].
+    unfold satl in Hs. rewrite Forall_forall in Hs. destruct (Hs _ Hin) as [al Eal]. simpl in Eal.
+    set (g := glue (vleaves l) al a).
+    assert (Ag : agree (vleaves r) g a) by (apply glue_r; exact Hdis).
+    assert (Al : agree (vleaves l) g al) by apply glue_l.
+    assert (E1 : sden p g = true) by (rewrite (under_agree p l off g al Up Al); exact Eal).
+    rewrite <- (under_agree s r _ g a Us Ag).
+    rewrite <- (excl_den E p s g ltac:(rewrite Hp; lia) Hin E1), <- Hd, Heq.
+    apply (under_agree Y r _ g a Uy Ag). }
+  destruct E as [|[p0 s0] [|[p1 s1] rest]]; simpl in Hlen; try lia.
+  assert (s0 = s1).
+  { destruct (okl_in _ _ _ p0 s0 Hok (or_introl eq_refl)) as [_ U0].
+    destruct (okl_in _ _ _ p1 s1 Hok (or_intror (or_introl eq_refl))) as [_ U1].
+    destruct (nfl_in _ p0 s0 Nl (or_introl eq_refl)) as [_ N0].
+    destruct (nfl_in _ p1 s1 Nl (or_intror (or_introl eq_refl))) as [_ N1].
+    apply CanS; auto. intros a. rewrite (K p0 s0), (K p1 s1); simpl; auto. }
+  subst s1. simpl in Hnd. apply NoDup_cons_iff in Hnd. destruct Hnd as [N0 _]. apply N0. simpl. auto.
+Qed.
+
+(* ---- something below the left child against something below the right child ---- *)
+Lemma left_vs_right X Y : under l off X -> nf X -> s_is_const X = false -> under r (S m) Y ->
+  (forall a, sden X a = sden Y a) -> False.
+Proof.
+  intros Ux Nx NC Uy Heq.
+  assert (C : s_is_const X = true); [|congruence].
+  apply (sem_const l off X (occurs_left _ _ _ _ _ Ho) Ux Nx).
+  intros a a'. set (g := glue (vleaves l) a' a).
+  assert (Ag : agree (vleaves r) g a) by (apply glue_r; exact Hdis).
+  assert (Al : agree (vleaves l) g a') by apply glue_l.
+  rewrite (Heq a), <- (under_agree Y r _ g a Uy Ag), <- Heq. apply (under_agree X l off g a' Ux Al).
+Qed.
+
+End Node.
 End Canon.
